@@ -391,6 +391,13 @@ def family_docs(thorough=False):
                 spacer = dict(kind='block', id=3, st=pm.default_style(height=Fraction(0), mt=Fraction(margin)), kids=[])
                 out.append((f'spacer-m{margin}-n{lines_before}-f{foot}',
                             _doc(100 + 10 * foot, [_para(1, lines_before, calls), spacer])))
+    # I. (both tiers) `@footnote` areas with negative margins (the repaired findings footnote-area-negative-margin-*):
+    #    the area emptied by a postponed footnote, and a kept footnote smaller than the negative margin
+    for mt, mb in ((-4, 0), (-14, 0), (-6, -6), (4, -10)):
+        for m in (1, 5):
+            for line in (0, 3):
+                out.append((f'negarea-mt{mt}-mb{mb}-m{m}-l{line}',
+                            _doc(46, [_para(1, 7, [_call(line, 1, m, 10)])], mt=mt, mb=mb)))
     # G. (both tiers) `@page <name> { @footnote { … } }`: footnotes postponed from an unnamed page land in the area of
     #    a named page type with another style (taller top margin, max-height), and back
     for mt, max_h in ((6, 'inf'), (0, 15), (4, 25)):
